@@ -812,6 +812,18 @@ func makeDefaultValue(typ *TypeDescriptor, val *parser.ConstValue, tree *parser.
 	}
 	switch val.Type {
 	case parser.ConstType_ConstInt:
+		if typ.typ == DOUBLE && val.TypedValue.Int != nil {
+			// an integer literal is a valid default for a double field (`1: double d = 1`)
+			v := float64(*val.TypedValue.Int)
+			tbuf := make([]byte, 8)
+			BinaryEncoding{}.EncodeDouble(tbuf, v)
+			jbuf := json.EncodeFloat64(make([]byte, 0, 8), v)
+			return &DefaultValue{
+				goValue:      v,
+				jsonValue:    rt.Mem2Str(jbuf),
+				thriftBinary: rt.Mem2Str(tbuf),
+			}, nil
+		}
 		if !typ.typ.IsInt() {
 			return nil, fmt.Errorf("mismatched int default value with type %s", typ.name)
 		}
